@@ -111,7 +111,7 @@ def discipline(ctx: Ctx, rule="R-C15-DISCIPLINE") -> None:
               node=lr, instance="scan direction")
     # removal end
     t = ctx.func(f"{C.REDIS_CONS}.__get_message_name")
-    lrem = [c for c in ast.walk(t.node) if isinstance(c, ast.Call) and isinstance(c.func, ast.Attribute) and c.func.attr == "lrem"]
+    lrem = [c for _o, c in C.flat_walk(ctx, t) if isinstance(c, ast.Call) and isinstance(c.func, ast.Attribute) and c.func.attr == "lrem"]
     ctx.require(len(lrem) == 1, f"{t.qualname}: lrem not found")
     cnt = lrem[0].args[1]
     cv = -cnt.operand.value if isinstance(cnt, ast.UnaryOp) and isinstance(cnt.op, ast.USub) and isinstance(cnt.operand, ast.Constant) else (cnt.value if isinstance(cnt, ast.Constant) else None)
